@@ -69,6 +69,9 @@ def main(tier, seed):
     for m in ("none", "3-point"):
         jobs.append((T, dict(maxiter=1, maxfun=6, maxls=2, ftol="sym", ls_mode="contract", ls_tmax=2, jac_mode=m, groups=["C02"])))
     jobs.append((T, dict(n=2, pattern=("ff", "ff"), maxiter=1, maxfun=3, maxls=1, ftol="sym", ls_mode="lean", callback_kind="choose", groups=["C02"])))
+    # user callables that scribble over the array they receive: the package's own points must not be affected
+    jobs.append((T, dict(maxiter=1, maxfun=4, maxls=2, ftol="sym", ls_mode="contract", ls_tmax=2, mutate_args=1, groups=["C02"])))
+    jobs.append((T, dict(maxiter=1, maxfun=6, maxls=1, ftol="sym", ls_mode="lean", jac_mode="2-point", mutate_args=1, groups=["C02"])))
     # a single-precision start vector: conversions into float32 are modelled by an uninterpreted rounding (relative error
     # 2^-24), so a point that goes through one on its way to the user's callables can leave the box
     jobs.append((T, dict(maxiter=1, maxfun=4, maxls=2, ftol="sym", ls_mode="contract", ls_tmax=2, x0_dtype="float32", groups=["C02"])))
